@@ -102,5 +102,13 @@ claim("C10", "model_checking",
       "documented similarity exponents (Sedov: rational functions of geometry and omega) in exact rationals; the harness evaluates the solver at a point and at its similarity image "
       "and TLC checks field = field * ratio^exponent.", REL_NOTE, REL_TECH, "DESIGN.md 9 C10")
 
+claim("C11", "model_checking",
+      "Sedov campaign of spec/Campaign.tla (3 geometries x gamma x rho0 x blast energy x density exponents incl. the exactly rational singular exponent "
+      "omega* = (3j-2+gamma(2-j))/(gamma+1) and a vacuum-type exponent, computed by TLC; 2-3 times): the solver is observed on its own exact table nodes "
+      "(request = linspace(0, r_shock, 3001)); the energy and mass integrals behind the shock (Simpson on the nodes, power-law treatment of the integrable "
+      "singularity at the vacuum boundary, quadrature uncertainty passed as slack) must equal the blast energy and the initial mass inside the shock radius, and the "
+      "state ahead must be (rho0 r^-omega, 0, 0) with the right-hand side computed by TLC from the user's parameters.",
+      MEAS, TECH, "DESIGN.md 9 C11")
+
 for p in [ "C07", "C08", "C09", "C10", "C11", "C12", "C13", "C14", "C15", "C16", "C18", "C19", "C20"]:
     pending(p, "check under construction in this round (design in DESIGN.md section 9); not claimed until it runs soundly on the unchanged tree")
